@@ -252,12 +252,19 @@ class MHLHistory:
                 else:
                     raise errors.MissingMHLManifestException(expected_file)
 
+        # the chain file is what commits a generation: a manifest that the chain does not list (e.g. left behind by
+        # a create run that was interrupted before it updated the chain file) is not part of the history
+        listed_filenames = {generation.ascmhl_filename for generation in history.chain.generations}
+
         hash_lists = []
         for root, directories, filenames in os.walk(asc_mhl_folder_path):
             for filename in filenames:
                 # file name example: 0001_root_2020-01-15_130000.mhl
                 # ignore ._ variants of mhl files that can happen when moving data from macOS to Windows and back
                 if (len(filename) > 2 and filename[:2] == "._") or not filename.endswith(ascmhl_file_extension):
+                    continue
+                if filename not in listed_filenames:
+                    logger.verbose(f"ignoring {filename}: it is not listed in the chain file")
                     continue
                 filename_no_extension, _ = os.path.splitext(filename)
                 parts = re.findall(MHLHistory.history_file_name_regex, filename_no_extension)
